@@ -34,15 +34,24 @@ def run(P, chk, tier, client=False):
     rinv = chk.rule(prop + ".M6", "persistent lengths", "lengths and cursors stored in session records or statics satisfy their "
                     "bounds at every writer (inductive over events)", "E3 field invariants", floor=4)
     prove_families(P, E, chk, rinv, units, client)
+    # strlen(topdomain) <= 128: the domain passed check_topdomain before either program starts tunnelling (C17.R2, C17.R4)
+    wbound.STR_AXIOMS.clear()
+    wbound.STR_AXIOMS["topdomain"] = 128
+    # strlen(q->name) <= 255: the decoder terminates every name it stores in a struct query (C12.R5) and the field has 256 bytes
+    from . import c12
+    nt = c12.name_terminated(P, E)
+    qn = [fd["t"].get("n") for u in P.units.values() for rn, r in u.records.items() if rn.endswith("query")
+          for fd in r["fields"] if fd["name"] == "name"]
+    if nt and all(ok_ for c_, ok_, d_ in nt) and qn:
+        for kq in ("q->name", "q.name"):
+            wbound.STR_AXIOMS[kq] = min(qn) - 1
     A = wbound.Analysis(P, E, units, roots)
     A.m1()
     A.m3_m4()
     A.m3c()
     A.m2()
+    A.m4_loads(answer_only={("dns_decode", "names")})
     A.discharge_requirements()
-    # strlen(topdomain) <= 128: the domain passed check_topdomain before either program starts tunnelling (C17.R2, C17.R4)
-    wbound.STR_AXIOMS.clear()
-    wbound.STR_AXIOMS["topdomain"] = 128
     A.sites.extend(wbound.string_builders(P, E, A.reach))
     # M2 sites inside the arguments of a string append are judged there
     sb_lines = {(s_.f.name, ir.loc(s_.node)) for s_ in A.sites if s_.cls == "M3" and s_.what.startswith("strncat(")}
@@ -55,6 +64,7 @@ def run(P, chk, tier, client=False):
         "M3": chk.rule(prop + ".M3", "bounded copy", "offset + length <= extent of the destination object, length >= 0", "E1 + E8", floor=30),
         "M3c": chk.rule(prop + ".M3c", "stated capacity", "capacity argument (+ documented slack) <= bytes behind the pointer argument", "E1 + E8", floor=10),
         "M4": chk.rule(prop + ".M4", "indexed store", "0 <= index < extent", "E1 + E8", floor=5),
+        "M4l": chk.rule(prop + ".M4l", "indexed load", "0 <= index < extent for every read a[e] of a fixed-size array with a computed index", "E1 + E8", floor=5),
     }
     m5ok = cursor_writers(P, chk, prop)
     exc = exceptions(P, E, client)
@@ -81,6 +91,17 @@ def run(P, chk, tier, client=False):
         chk.site(rules[cls], s.f, ir.loc(s.node), "%s: %s" % (s.f.name, s.what[:70]), ok, detail)
     chk.extra["reviewed_exceptions"] = [{"function": k[0], "class": k[1], "site": k[2], "reason": v[0], "premise": v[2], "premise_holds": bool(v[1]),
                                           "matched": k in used} for k, v in sorted(exc.items(), key=lambda kv: tuple(map(str, kv[0])))]
+    # the MX/SRV slot table of dns_decode: its read loop runs to the first empty slot
+    dd_ = P.func("dns_decode", "dns.c")
+    if not client:
+        qq = enum_values(P, {"QR_QUERY"}).get("QR_QUERY")
+        calls_ = [(g, c) for g, c in P.callers_of(dd_) if g.unit.file in units and g in A.reach]
+        okq = bool(calls_) and qq is not None and all(len(c["a"]) > 3 and cval(sk(c["a"][3])) == qq for g, c in calls_)
+        chk.site(rules["M4l"], dd_, dd_.line, "dns_decode: names[..] (answer records)", okq,
+                 "not reached in the server: all %d calls pass QR_QUERY" % len(calls_) if okq else
+                 "the server may decode answers: the slot-table loop needs the sentinel argument (client rule M4r)")
+    else:
+        chk.site(rules["M4l"], dd_, dd_.line, "dns_decode: names[..] (answer records)", True, "judged by rule %s.M4r below (sentinel and cleared table)" % prop)
     if client:
         # ------------------------------------------------------------------ M4r: the unbounded read loop over the MX/SRV slot table
         from . import c09
@@ -244,6 +265,10 @@ def prove_families(P, E, chk, rinv, units, client):
              [(r"^users\[[^\]]+\]\.inpacket\.offset$", 0, 65536)]),
             (F("answer cache cursor", r"^(users\[[^\]]+\]\.)(dnscache_lastfilled)$", ("dnscache_lastfilled",), two("dnscache_lastfilled", dl - 1)),
              [(r"^users\[[^\]]+\]\.dnscache_lastfilled$", 0, dl - 1)]),
+            (F("send queue", r"^(users\[[^\]]+\]\.)(outpacketq_nexttouse|outpacketq_filled)$", ("outpacketq_nexttouse", "outpacketq_filled"),
+               two("outpacketq_nexttouse", _macro_extent(P, "outpacketq") - 1) + two("outpacketq_filled", _macro_extent(P, "outpacketq"))),
+             [(r"^users\[[^\]]+\]\.outpacketq_nexttouse$", 0, _macro_extent(P, "outpacketq") - 1),
+              (r"^users\[[^\]]+\]\.outpacketq_filled$", 0, _macro_extent(P, "outpacketq"))]),
             (F("forward ring cursor", r"^()(fwq_ix)$", ("fwq_ix",), two("fwq_ix", _global_extent(P, "fw_query.c", "fwq") - 1)),
              [(r"^fwq_ix$", 0, _global_extent(P, "fw_query.c", "fwq") - 1)]),
         ]
